@@ -75,3 +75,14 @@ def register(S):
                note="zlib.decompress: inverse of compress on its image; zlib.error on anything it rejects",
                outcomes=[{"label": "ok", "when": ["zvalid(data)"], "assume": ["result == zdecomp(data)"]},
                          {"label": "corrupt", "raise": "zlib.error", "when": ["not zvalid(data)"]}])
+
+    # threading.Lock, sequential semantics (A-SEQ): `held` is ghost state; only the non-blocking acquire used by
+    # Connection._send is modelled (a blocking acquire of a held lock on the same thread would deadlock)
+    S.declare_fields("Lock", held="bool")
+    S.external("Lock.acquire", params={"self": "obj:Lock", "blocking": "bool"}, result="bool", defaults={"blocking": True},
+               note="Lock.acquire(False): takes the lock and returns True if it is free, else returns False",
+               requires=["not blocking or not self.held"],
+               outcomes=[{"label": "got", "when": ["not self.held"], "sets": {"self.held": "True"}, "assume": ["result == True"]},
+                         {"label": "busy", "when": ["self.held"], "assume": ["result == False"]}])
+    S.external("Lock.release", params={"self": "obj:Lock"}, result="none", requires=["self.held"],
+               note="Lock.release() of a held lock", outcomes=[{"label": "ok", "sets": {"self.held": "False"}}])
